@@ -37,7 +37,25 @@ type scriptConn struct {
 	nread   int
 	writes  [][]byte
 	wdelay  func(i int)
-	openEnd bool // more chunks may still be appended (outbound tests do not use reads)
+	openEnd bool      // more chunks may still be appended (outbound tests do not use reads)
+	rdl     time.Time // read deadline (zero: none), honoured the way a TCP connection does
+}
+
+// errDeadline is what a read returns once its deadline has passed (a net.Error with Timeout() == true).
+type errDeadline struct{}
+
+func (errDeadline) Error() string   { return "i/o timeout" }
+func (errDeadline) Timeout() bool   { return true }
+func (errDeadline) Temporary() bool { return true }
+
+func (c *scriptConn) setReadDeadline(t time.Time) {
+	c.mu.Lock()
+	c.rdl = t
+	c.mu.Unlock()
+	if !t.IsZero() {
+		time.AfterFunc(time.Until(t)+time.Millisecond, c.cond.Broadcast)
+	}
+	c.cond.Broadcast()
 }
 
 func newScriptConn(chunks [][]byte, failErr error) *scriptConn {
@@ -62,6 +80,10 @@ func (c *scriptConn) Read(p []byte) (int, error) {
 			err := c.failErr
 			c.mu.Unlock()
 			return 0, err
+		}
+		if !c.rdl.IsZero() && !time.Now().Before(c.rdl) {
+			c.mu.Unlock()
+			return 0, errDeadline{}
 		}
 		c.cond.Wait()
 	}
@@ -109,9 +131,9 @@ func (c *scriptConn) Close() error {
 }
 func (c *scriptConn) LocalAddr() net.Addr                { return &net.TCPAddr{} }
 func (c *scriptConn) RemoteAddr() net.Addr               { return &net.TCPAddr{} }
-func (c *scriptConn) SetDeadline(t time.Time) error      { return nil }
-func (c *scriptConn) SetReadDeadline(t time.Time) error  { return nil }
-func (c *scriptConn) SetWriteDeadline(t time.Time) error { return nil }
+func (c *scriptConn) SetDeadline(t time.Time) error      { c.setReadDeadline(t); return nil }
+func (c *scriptConn) SetReadDeadline(t time.Time) error  { c.setReadDeadline(t); return nil }
+func (c *scriptConn) SetWriteDeadline(t time.Time) error { return nil } // writes never block for long here
 func (c *scriptConn) WrittenBytes() int {
 	c.mu.Lock()
 	defer c.mu.Unlock()
